@@ -13,6 +13,53 @@ use std::cell::RefCell;
 use std::collections::{BTreeMap, HashSet};
 
 // ------------------------------------------------------------------------------------------------
+// hang watchdog: every worker publishes the case it is executing; a supervisor thread (started by
+// the runner) ends the process with exit code 3 and a replay file if one case runs for too long.
+
+pub mod watch {
+    use crate::ir::Op;
+    use std::sync::Mutex;
+    use std::time::Instant;
+
+    pub struct Slot {
+        pub since: Instant,
+        pub ops: Vec<Op>,
+        pub profile: String,
+    }
+    pub static SLOTS: Mutex<Vec<Option<Slot>>> = Mutex::new(Vec::new());
+
+    pub fn begin(worker: usize, ops: &[Op], profile: &str) {
+        if let Ok(mut g) = SLOTS.lock() {
+            if g.len() <= worker {
+                g.resize_with(worker + 1, || None);
+            }
+            g[worker] = Some(Slot { since: Instant::now(), ops: ops.to_vec(), profile: profile.to_string() });
+        }
+    }
+    pub fn end(worker: usize) {
+        if let Ok(mut g) = SLOTS.lock() {
+            if let Some(s) = g.get_mut(worker) {
+                *s = None;
+            }
+        }
+    }
+    /// the oldest case that has been running for more than `limit_s` seconds
+    pub fn overdue(limit_s: u64) -> Option<(Vec<Op>, String, u64)> {
+        let g = SLOTS.lock().ok()?;
+        g.iter().flatten().filter(|s| s.since.elapsed().as_secs() >= limit_s).map(|s| (s.ops.clone(), s.profile.clone(), s.since.elapsed().as_secs())).next()
+    }
+    thread_local! {
+        pub static WORKER: std::cell::Cell<usize> = const { std::cell::Cell::new(0) };
+    }
+    pub fn set_worker(w: usize) {
+        WORKER.with(|c| c.set(w));
+    }
+    pub fn me() -> usize {
+        WORKER.with(|c| c.get())
+    }
+}
+
+// ------------------------------------------------------------------------------------------------
 // running one history
 
 #[derive(Clone, Debug, Default)]
@@ -30,6 +77,8 @@ pub struct CaseRun {
     /// executed ops with selectors resolved (`Sel::Slot`) — the shrinker's starting point
     pub concrete: Vec<Op>,
     pub features: CaseFeatures,
+    /// failures of other properties after which the model was re-synchronised and the case went on
+    pub resynced: u64,
 }
 
 #[derive(Clone, Debug, Default)]
@@ -50,7 +99,13 @@ pub fn deep_at<P: Payload>(w: &mut World<P>, seed: u64, dc: &DeepCfg, cfg: &Step
     macro_rules! stop {
         () => {
             if !d.failures.is_empty() {
-                return d;
+                match &cfg.target {
+                    Some(t) if !d.failures.iter().any(|f| f.hits(t)) => {
+                        d.other += d.failures.len() as u64;
+                        d.failures.clear();
+                    }
+                    _ => return d,
+                }
             }
         };
     }
@@ -229,6 +284,11 @@ pub fn run_history_on<P: Payload>(w: &mut World<P>, ops: &[Op], prof: &Profile, 
             run.features.same_list_move = true;
         }
         if !so.failures.is_empty() {
+            let hits = cfg.target.as_ref().map_or(true, |t| so.failures.iter().any(|f| f.hits(t)));
+            if !hits && w.resync() {
+                run.resynced += 1;
+                continue;
+            }
             run.fail = Some((i, so.failures, None));
             break;
         }
@@ -519,6 +579,13 @@ pub fn c16_eval<P: Payload>(ops: &[Op], prof: &Profile, cfg: &StepCfg, record: b
 
 /// Evaluate one generated case under the property's profile.
 pub fn eval_case<P: Payload>(ops: &[Op], prof: &Profile, cfg: &StepCfg, record: bool) -> CaseRun {
+    watch::begin(watch::me(), ops, prof.name);
+    let r = eval_case_inner::<P>(ops, prof, cfg, record);
+    watch::end(watch::me());
+    r
+}
+
+fn eval_case_inner<P: Payload>(ops: &[Op], prof: &Profile, cfg: &StepCfg, record: bool) -> CaseRun {
     if prof.name == "C13" {
         c13_eval::<P>(ops, prof, cfg, record)
     } else if prof.name == "C16" {
@@ -1009,6 +1076,11 @@ pub fn dfs<P: Payload>(w: &World<P>, path: &mut Vec<Op>, depth: usize, k: usize,
     }
     for op in alphabet(w, k, prof.w_set > 0) {
         let mut w2 = w.clone();
+        {
+            let mut cur = path.clone();
+            cur.push(op.clone());
+            watch::begin(watch::me(), &cur, prof.name);
+        }
         let so = w2.step(&op, cfg);
         if so.skipped {
             continue;
@@ -1045,8 +1117,10 @@ pub fn dfs<P: Payload>(w: &World<P>, path: &mut Vec<Op>, depth: usize, k: usize,
             while matches!(path.last(), Some(Op::Probe { .. })) {
                 path.pop();
             }
-            path.pop();
-            continue; // do not extend a history beyond a failure
+            if !w2.resync() {
+                path.pop();
+                continue; // the arena cannot serve as ground truth any more: do not extend this history
+            }
         }
         if depth > 1 {
             dfs(&w2, path, depth - 1, k, prop, prof, cfg, out, label);
